@@ -100,6 +100,14 @@ def streams(rng, tier):
                 cs.append(_typed(c, ty))
             for fn in c05.UNARY:
                 cs.append(_typed({"op": "un", "fn": fn, "a": _vals(rng, ty, mask)}, ty))
+    fmts = [["s", "id=%s"], ["s", "%r!"], ["s", "<%s>"]]
+    for mask in (MASKS if thorough else rng.sample(MASKS, 16)):
+        n = len(mask)
+        for form in ("vec", "list"):
+            cs.append({"op": "bin", "fn": "mod", "form": form, "a": [rng.choice(fmts) for _ in range(n)],
+                       "b": [["N"] if m else rng.choice(POOL["int"] + POOL["str"]) for m in mask]})
+        cs.append({"op": "bin", "fn": "mod", "form": "vec", "a": [["N"] if m else rng.choice(fmts) for m in mask],
+                   "b": [rng.choice(POOL["int"]) for _ in range(n)]})
     out.append(("arith", cs))
     # ---- comparisons (generic path)
     cs = []
@@ -155,6 +163,15 @@ def streams(rng, tier):
             for fn in REDS + ["len"]:
                 for _ in range(4 if thorough else 1):
                     cs.append(_typed({"op": "red", "fn": fn, "a": _vals(rng, ty, mask)}, ty))
+    # reductions must skip None whatever the schema says: vectors that hold None under a dtype that was
+    # declared rather than inferred (to_object(), an explicit non-nullable dtype)
+    for ty in DTYPES:
+        for mask in (MASKS if thorough else rng.sample([m for m in MASKS if any(m) and not all(m)], 6)):
+            if not any(mask) or all(mask):
+                continue
+            for fn in REDS:
+                via = rng.choice(["to_object", "declared"])
+                cs.append(_typed({"op": "red", "fn": fn, "a": _vals(rng, ty, mask), "via": via}, ty))
     out.append(("reduce", cs))
     # ---- isna / dropna / fillna
     cs = []
@@ -331,6 +348,12 @@ def _obs_red(case):
     it = c05._Intern()
     a = [V.dec(t) for t in case["a"]]
     v = c05._mkvec(a, case.get("adt"))
+    if case.get("via") == "to_object":
+        v = v.to_object()
+    elif case.get("via") == "declared" and v.schema() is not None:
+        from serif import Vector
+        from serif.typing import DataType
+        v = Vector(list(a), dtype=DataType(v.schema().kind, nullable=False))
     xs = [it.id(x) for x in a]
     clean = [x for x in a if x is not None]
     o = {"xs": xs, "clean": [it.id(x) for x in clean]}
